@@ -73,6 +73,35 @@ impl<'a> Model<'a> {
 //@stub base/src/model.rs Model::evaluate
     ensures final(self).log() == old(self).log()
 //@end
+//@stub base/src/model.rs Model::set_sheet_state
+    ensures r.is_ok() ==> final(self).log() == old(self).log().push(Call::SetSheetState(sheet, state)), r.is_err() ==> *final(self) == *old(self)
+//@end
+//@stub base/src/new_empty.rs Model::delete_sheet
+    ensures r.is_ok() ==> final(self).log() == old(self).log().push(Call::DeleteSheet(sheet_index)), r.is_err() ==> *final(self) == *old(self)
+//@end
+//@stub base/src/new_empty.rs Model::move_sheet
+    ensures r.is_ok() ==> final(self).log() == old(self).log().push(Call::MoveSheet(sheet_index, new_index)), r.is_err() ==> *final(self) == *old(self)
+//@end
+    // column widths / row heights as a state function of the engine (A-setget frame: a set changes only its own line — proved for the
+    // Worksheet setters in units cols / rows, whole-view contracts)
+    pub uninterp spec fn width(&self, sheet: u32, column: i32) -> f64;
+    pub uninterp spec fn height(&self, sheet: u32, row: i32) -> f64;
+//@stub base/src/model.rs Model::get_column_width
+    ensures r.is_ok() ==> r.unwrap() == self.width(sheet, column)
+//@end
+//@stub base/src/model.rs Model::set_column_width
+    ensures r.is_ok() ==> final(self).log() == old(self).log().push(Call::SetColumnWidth(sheet, column, width))
+                && (forall|c2: i32| c2 != column ==> #[trigger] final(self).width(sheet, c2) == old(self).width(sheet, c2)),
+            r.is_err() ==> *final(self) == *old(self)
+//@end
+//@stub base/src/model.rs Model::get_row_height
+    ensures r.is_ok() ==> r.unwrap() == self.height(sheet, row)
+//@end
+//@stub base/src/model.rs Model::set_row_height
+    ensures r.is_ok() ==> final(self).log() == old(self).log().push(Call::SetRowHeight(sheet, column, height))
+                && (forall|r2: i32| r2 != column ==> #[trigger] final(self).height(sheet, r2) == old(self).height(sheet, r2)),
+            r.is_err() ==> *final(self) == *old(self)
+//@end
 //@stub base/src/model.rs Model::set_show_grid_lines
     ensures r.is_ok() ==> final(self).log() == old(self).log().push(Call::SetShowGridLines(sheet, show_grid_lines)), r.is_err() ==> *final(self) == *old(self)
 //@end
@@ -83,6 +112,7 @@ impl<'a> Model<'a> {
     ensures r.is_ok() ==> final(self).log() == old(self).log().push(Call::RenameSheet(sheet_index, new_name@)), r.is_err() ==> *final(self) == *old(self)
 //@end
 }
+impl Clone for Worksheet { #[verifier::external_body] fn clone(&self) -> (r: Self) ensures r == *self { unimplemented!() } }
 impl Workbook {
     pub uninterp spec fn ws(&self, i: u32) -> Worksheet;
 //@stub base/src/workbook.rs Workbook::worksheet
@@ -96,6 +126,18 @@ impl Worksheet {
 //@end
 }
 
+//@type base/src/constants.rs LAST_COLUMN
+//@type base/src/constants.rs LAST_ROW
+//@fn base/src/expressions/utils/mod.rs is_valid_column_number
+//@spec
+    ensures r == (1 <= column <= 16384)
+//@rewrite `-> bool` => `-> (r: bool)`
+//@end
+//@fn base/src/expressions/utils/mod.rs is_valid_row
+//@spec
+    ensures r == (1 <= row <= 1048576)
+//@rewrite `-> bool` => `-> (r: bool)`
+//@end
 impl History {
 //@fn base/src/user_model/history.rs History::push
 //@spec
@@ -205,6 +247,72 @@ impl<'a> UserModel<'a> {
                 invariant delta - (col - (column + delta)) <= new_delta <= delta, column + delta <= col <= column
 //@before#2 `Ok(())`
         assert(recorded(old(self), self, Diff::MoveColumns { sheet, column, column_count, delta: new_delta }));
+//@end
+
+// sheet visibility / deletion / move: the recorded diff names the sheet, carries the state (or the whole sheet) as it was BEFORE the call,
+// and the engine call is the redo of that diff
+//@fn base/src/user_model/common.rs UserModel::unhide_sheet
+//@spec
+    ensures r.is_ok() ==> one_entry(old(self), final(self))
+        && final(self).history.undo_stack@.last()@ =~= seq![Diff::SetSheetState { index: sheet, new_value: SheetState::Visible, old_value: old(self).model.workbook.ws(sheet).state }]
+        && final(self).model.log() =~= old(self).model.log().push(Call::SetSheetState(sheet, SheetState::Visible)),
+//@rewrite `-> Result<(), String> {` => `-> (r: Result<(), String>) {`
+//@end
+/// delete_sheet up to the engine call (D2: the selection update that follows is under contract in unit uisel)
+pub fn delete_sheet_recorded(&mut self, sheet: u32) -> (r: Result<Box<Worksheet>, String>)
+    ensures r matches Ok(d) ==> *d == old(self).model.workbook.ws(sheet) && final(self).model.log() =~= old(self).model.log().push(Call::DeleteSheet(sheet)),
+{
+//@fragment base/src/user_model/common.rs UserModel::delete_sheet `let old_data = Box::new(` .. `self.model.delete_sheet(sheet)?;`
+//@end
+    Ok(old_data)
+}
+// bulk size setters: ONE history entry holding, for every line of the range in order, the size it had BEFORE the operation and the
+// requested size; the engine saw exactly the redo of that list
+//@fn base/src/user_model/common.rs UserModel::set_columns_width
+//@attr
+#[verifier::loop_isolation(false)]
+//@spec
+    requires small(column_start as int), small(column_end as int)
+    ensures r.is_ok() ==> one_entry(old(self), final(self)) && ({
+        let list = final(self).history.undo_stack@.last()@;
+        let n = if column_end >= column_start { column_end - column_start + 1 } else { 0 };
+        &&& list.len() == n
+        &&& forall|k: int| 0 <= k < n ==> #[trigger] list[k] == (Diff::SetColumnWidth { sheet, column: (column_start + k) as i32, new_value: width, old_value: old(self).model.width(sheet, (column_start + k) as i32) })
+        &&& final(self).model.log() =~= old(self).model.log() + Seq::new(n as nat, |k: int| Call::SetColumnWidth(sheet, (column_start + k) as i32, width))
+    }),
+//@rewrite `) -> Result<(), String> {` => `) -> (r: Result<(), String>) {`
+//@forwhile 1
+//@loop 1
+            invariant column_start <= __column, column_start <= column_end ==> __column <= column_end + 1, column_start > column_end ==> __column == column_start,
+                self.history == old(self).history, self.send_queue == old(self).send_queue,
+                diff_list@.len() == __column - column_start,
+                forall|k: int| 0 <= k < diff_list@.len() ==> #[trigger] diff_list@[k] == (Diff::SetColumnWidth { sheet, column: (column_start + k) as i32, new_value: width, old_value: old(self).model.width(sheet, (column_start + k) as i32) }),
+                forall|c2: i32| c2 >= __column ==> #[trigger] self.model.width(sheet, c2) == old(self).model.width(sheet, c2),
+                self.model.log() =~= old(self).model.log() + Seq::new((__column - column_start) as nat, |k: int| Call::SetColumnWidth(sheet, (column_start + k) as i32, width)),
+            decreases column_end + 1 - __column
+//@end
+//@fn base/src/user_model/common.rs UserModel::set_rows_height
+//@attr
+#[verifier::loop_isolation(false)]
+//@spec
+    requires small(row_start as int), small(row_end as int)
+    ensures r.is_ok() ==> one_entry(old(self), final(self)) && ({
+        let list = final(self).history.undo_stack@.last()@;
+        let n = if row_end >= row_start { row_end - row_start + 1 } else { 0 };
+        &&& list.len() == n
+        &&& forall|k: int| 0 <= k < n ==> #[trigger] list[k] == (Diff::SetRowHeight { sheet, row: (row_start + k) as i32, new_value: height, old_value: old(self).model.height(sheet, (row_start + k) as i32) })
+        &&& final(self).model.log() =~= old(self).model.log() + Seq::new(n as nat, |k: int| Call::SetRowHeight(sheet, (row_start + k) as i32, height))
+    }),
+//@rewrite `) -> Result<(), String> {` => `) -> (r: Result<(), String>) {`
+//@forwhile 1
+//@loop 1
+            invariant row_start <= __row, row_start <= row_end ==> __row <= row_end + 1, row_start > row_end ==> __row == row_start,
+                self.history == old(self).history, self.send_queue == old(self).send_queue,
+                diff_list@.len() == __row - row_start,
+                forall|k: int| 0 <= k < diff_list@.len() ==> #[trigger] diff_list@[k] == (Diff::SetRowHeight { sheet, row: (row_start + k) as i32, new_value: height, old_value: old(self).model.height(sheet, (row_start + k) as i32) }),
+                forall|r2: i32| r2 >= __row ==> #[trigger] self.model.height(sheet, r2) == old(self).model.height(sheet, r2),
+                self.model.log() =~= old(self).model.log() + Seq::new((__row - row_start) as nat, |k: int| Call::SetRowHeight(sheet, (row_start + k) as i32, height)),
+            decreases row_end + 1 - __row
 //@end
 }
 
